@@ -8,6 +8,7 @@
      ACCEPT <n labels> vis=<..> seq=<..> memseq=<..> db=<number of committed batches>
      REJECT <index> <label text>          (the implementation machine does not accept the label)
      SPECREJECT <index> <label text>      (accepted by the model, refused by the atomic store)
+     ASSERT <index> <label text> [what]   (a scalar the store reported at that hook differs from the model's)
    labels (T = thread id >= 0, keys and values are non-negative integers, key k is the byte string
    "k%04d" so that the model orders keys as the store does):
      invw T k=v,k=~,... | invw T -      wlock T  wlink T I  wassign T S  wpick T 0|1  wunlock T  wlog T
@@ -53,6 +54,29 @@ let alternatives (line : string) : string list =
   | ["rtree"; t; "?"] -> ["rtree " ^ t ^ " 0"; "rtree " ^ t ^ " 1"]
   | ["retget"; t; "absent"] -> ["retget " ^ t ^ " none"; "retget " ^ t ^ " tomb"]
   | _ -> [line]
+
+(* `@name=value` tokens at the end of a label line are assertions about the model state AFTER the step:
+   the scalars the real store reported at that hook (mem_seq_no, seq_no, imm_trigger, has_imm). *)
+let split_asserts (line : string) : string * (string * int) list =
+  let toks = String.split_on_char ' ' (String.trim line) |> List.filter (fun x -> x <> "") in
+  let lab = List.filter (fun x -> x.[0] <> '@') toks in
+  let asserts = List.filter_map (fun x ->
+    if x.[0] = '@' then
+      match String.split_on_char '=' (String.sub x 1 (String.length x - 1)) with
+      | [k; v] -> Some (k, int_of_string v)
+      | _ -> failwith ("bad assertion " ^ x)
+    else None) toks in
+  (String.concat " " lab, asserts)
+
+let check_assert st (k, v) : string option =
+  let got = match k with
+    | "memseq" -> int_of_n (k_memseq st)
+    | "seq" -> int_of_n (k_seq st)
+    | "trig" -> int_of_n (k_trig st)
+    | "vis" -> int_of_n (k_vis st)
+    | "imm" -> (match k_imm st with Some _ -> 1 | None -> 0)
+    | _ -> failwith ("unknown assertion " ^ k) in
+  if got = v then None else Some (Printf.sprintf "%s: store %d, model %d" k v got)
 
 let parse_label (line : string) : label =
   match String.split_on_char ' ' (String.trim line) |> List.filter (fun x -> x <> "") with
@@ -120,6 +144,7 @@ let () =
                 let l = String.trim (input_line stdin) in
                 if l = "end" then raise Exit;
                 if l <> "" && !verdict = None then begin
+                  let (l, asserts) = split_asserts l in
                   let rec attempt = function
                     | [] -> verdict := Some (Printf.sprintf "REJECT %d %s" !idx l)
                     | a :: rest ->
@@ -128,6 +153,9 @@ let () =
                          | None -> attempt rest
                          | Some st' ->
                              st := st';
+                             (match List.filter_map (check_assert st') asserts with
+                              | [] -> ()
+                              | m :: _ -> if !verdict = None then verdict := Some (Printf.sprintf "ASSERT %d %s [%s]" !idx l m));
                              if not unrepaired then
                                (match sstep !sp lab with
                                 | None -> verdict := Some (Printf.sprintf "SPECREJECT %d %s" !idx l)
